@@ -290,7 +290,14 @@ def gen_table(rng, kind="f0", **kw):
     elif kind == "composite":
         # a main pass with translation rules (fragment F0) between correct and pass2-4 stages, no context rules: the
         # fragment whose WHOLE call the model computes (LouModel/Engine.lean)
-        gen_alphabet(rng, t, upper=False)
+        caps = bool(kw.get("caps"))
+        gen_alphabet(rng, t, upper=caps)
+        if caps:
+            # (capital indicators make the emphasis machinery run over the text the correct pass produced; such tables
+            # are outside the whole-call model and are there for the sanitizers - seeded change C01-C)
+            t.rules.append(Rule(None, raw="capsletter %s" % dots_str(rng.choice([32, 40, 48]))))
+            if rng.random() < 0.5:
+                t.rules.append(Rule(None, raw="begcapsword %s-%s" % (dots_str(32), dots_str(32))))
         gen_translation_rules(rng, t)
         gen_passes(rng, t, per_stage=kw.get("per_stage", (0, 3)), stages=("correct", "pass2", "pass3", "pass4"),
                    literal_only=True, biased_nonconsuming=kw.get("biased", False))
